@@ -1,3 +1,82 @@
-From Coca Require Import Model.RCall Model.RCallSpec.
-Theorem placeholder : True. Proof. exact I. Qed.
-Print Assumptions placeholder.
+(* C04 -- Reverse call graph is the exact inverse of the project-internal call relation.
+   Only statements live here; every proof is [exact <lemma of Proofs/RCallProofs.v>]. *)
+From Coq Require Import String List Bool Arith.
+From Coca Require Import Lib.GoMap Lib.Dot Lib.Reach Model.CodeModel Model.RCall Model.RCallSpec
+     Generated.Constants Proofs.DotProofs Proofs.RCallProofs.
+Import ListNotations.
+Open Scope string_scope.
+
+(* 1. the reverse-call map lists, for every method, exactly the project methods calling it,
+      once per call site and in call-site order; undeclared callees have no callers *)
+Theorem C04_map_exact : forall m callee,
+    mget_d [] (method_call_map m) callee = spec_callers m callee.
+Proof. exact rcall_map_exact. Qed.
+Print Assumptions C04_map_exact.
+
+Theorem C04_map_keys_declared : forall m k,
+    In k (mkeys (method_call_map m)) -> In k (declared_methods m).
+Proof. exact rcall_map_keys_declared. Qed.
+Print Assumptions C04_map_keys_declared.
+
+Theorem C04_map_values_declared : forall m k c,
+    In c (mget_d [] (method_call_map m) k) -> In c (declared_methods m).
+Proof. exact rcall_map_values_declared. Qed.
+Print Assumptions C04_map_values_declared.
+
+(* 2. every edge caller -> callee comes from the map, and the callee lies on a caller chain
+      (of at most [fuel] steps) ending at the queried method -- for every map, state and fuel *)
+Theorem C04_edges_sound : forall mm fuel st target c g,
+    In (REdge c g) (snd (rchain fuel mm st target)) ->
+    In c (callers mm g) /\ ReachN (callers mm) fuel target g.
+Proof. intros mm fuel st target c g. exact (rchain_sound mm fuel st target c g). Qed.
+Print Assumptions C04_edges_sound.
+
+(* 3. every direct caller of the target other than itself is drawn, whatever state the
+      process was left in by earlier queries *)
+Theorem C04_direct_callers_present : forall mm st target c,
+    In c (callers mm target) -> c <> target ->
+    In (REdge c target) (snd (build_rcall_chain st mm target)).
+Proof. exact direct_callers_present. Qed.
+Print Assumptions C04_direct_callers_present.
+
+(* 4. generation terminates inside the fixed budget for every graph shape: the fuel
+      (budget + 2) is never exhausted and at most loopDepth expansions happen *)
+Theorem C04_terminates_in_budget : forall mm st target,
+    ~ In ROutOfFuel (snd (build_rcall_chain st mm target)) /\
+    r_cnt (fst (build_rcall_chain st mm target)) <= loopDepth.
+Proof. exact build_rcall_chain_terminates_in_budget. Qed.
+Print Assumptions C04_terminates_in_budget.
+
+(* 5. the printed text is well-formed DOT that parses back to exactly the printed edges,
+      for all names without backslash/newline (double quotes allowed) *)
+Theorem C04_dot_roundtrip : forall l,
+    names_plain l ->
+    dot_parse ("digraph G {" ++ nl ++ render_stmts l ++ "}" ++ nl) = Some (stmt_edges l).
+Proof. exact dot_parse_render. Qed.
+Print Assumptions C04_dot_roundtrip.
+
+(* 6. the whole statement, as the decider the check applies to the implementation's output:
+      on the model's own output every clause holds, for every model, target and process state *)
+Theorem C04_model_meets_spec : forall st m target,
+    names_ok m target ->
+    let out := snd (ranalysis st target m) in
+    c04_verdict m target (fst out) (snd out) = [].
+Proof. exact ranalysis_meets_spec. Qed.
+Print Assumptions C04_model_meets_spec.
+
+(* non-vacuity *)
+Example C04_example_hypotheses : names_ok ex_model "p.T.t".
+Proof. exact ex_model_names_ok. Qed.
+Print Assumptions C04_example_hypotheses.
+
+Example C04_example_graph :
+  exists es, dot_parse (snd (snd (ranalysis rstate0 "p.T.t" ex_model))) = Some (("p.T.t", "p.A.a") :: es)
+             /\ In ("p.A.b", "p.T.t") es.
+Proof. exact ex_model_graph_nonempty. Qed.
+Print Assumptions C04_example_graph.
+
+Example C04_example_quotes :
+  dot_parse (snd (snd (ranalysis rstate0 ("p.T" ++ dquote ++ ".t") ex_quote_model)))
+  = Some [("p.A.a" ++ dquote ++ "b", "p.T" ++ dquote ++ ".t")].
+Proof. exact ex_quote_graph. Qed.
+Print Assumptions C04_example_quotes.
